@@ -12,7 +12,7 @@ PROP = {
                   "Goodbye both ways) is final and, in every history leading there, leaves no local connect request waiting; an operation waiting for "
                   "flow credits is woken and fails when its pool is closed or gone; the received-prefix theorem of C01 holds in every reachable state; "
                   "virtual-time arithmetic of keep-alive and timeout: a silent transport is noticed within the enforced timeout, an idle healthy link "
-                  "with jitter below half the enforced timeout never times out for EVERY configured timeout, a configured timeout is never announced as "
+                  "with jitter below half the enforced timeout never times out for EVERY configured timeout -- one gap, and (C06_idle_healthy_forever, induction over the timeline of both timers in Chmux/TimeRun.v) an idle period of ANY length; silence beginning after any such timeline is noticed exactly one enforced timeout after the last arrival (C06_silence_after_any_prefix); a configured timeout is never announced as "
                   "none. Tied to the code by (a) the endpoint differential (harness as peer, incl. hostile frames that end the dispatcher: status, emitted "
                   "messages and connect outcomes compared with the model) and (b) a two-endpoint fault stream under Tokio's paused clock: sink error, "
                   "stream error, end of stream, silence in both or one direction at a random point of a workload with a sender blocked on credits, a "
